@@ -166,9 +166,20 @@ def apply_call(obj, name, args):
         except Exception:  # noqa: BLE001  (arguments that cannot be walked: invalid on purpose)
             pass
     if name == "dsetitem":
+        if _attr_form(obj, args[0]) and _form(args, 3) == 0:
+            # attribute syntax on the attribute-access classes: `obj.key = value` IS `obj[key] = value`
+            setattr(obj, args[0], args[1])
+            return None
         obj[args[0]] = args[1]
         return None
     if name == "ddelitem":
+        if _attr_form(obj, args[0]) and _form(args, 3) == 0:
+            try:
+                delattr(obj, args[0])
+            except AttributeError:
+                # the attribute form of KeyError (a missing key must raise AttributeError)
+                raise KeyError(args[0])
+            return None
         del obj[args[0]]
         return None
     if name == "dpop":
@@ -272,6 +283,15 @@ def _form(args, n):
 
 def _is_synced(obj):
     return hasattr(obj, "_load")
+
+
+def _attr_form(obj, key):
+    """can `obj[key]` be written `obj.key`?  (attribute-access class, a string that is neither a
+    dunder nor one of the class's protected names)"""
+    if not any(c.__name__ == "AttrDict" for c in type(obj).__mro__):
+        return False
+    prot = getattr(type(obj), "_PROTECTED_KEYS", ())
+    return isinstance(key, str) and not key.startswith("__") and key not in prot
 
 
 def _iterable_form(v, k):
